@@ -325,7 +325,7 @@ class Ctx(object):
     def v(self, prop, key, msg):
         self.viol.append({"property": prop, "key": key, "msg": msg})
 
-    def call(self, label, fn, operands=(), mutates=(), meta=None, meta_src=None, containers=()):
+    def call(self, label, fn, operands=(), mutates=(), meta=None, meta_src=None, containers=(), meta_owner='C16'):
         """run fn(); operands: objects that must be left unchanged unless listed (by
         identity) in mutates; containers: the lists / dicts the operands were passed in, which
         must hold the very same objects afterwards.  Returns (result, exception)."""
@@ -365,6 +365,7 @@ class Ctx(object):
                 COUNTS['meta_checks'] += 1
                 p = meta_ok(res, meta)
                 if p:
-                    self.v('C16', 'meta-%s:%s' % (meta, label.split('(')[0]), "%s: %s" % (label, p))
+                    # C16 owns metadata propagation; a property whose own statement promises the metadata (C10, C18) owns it too
+                    self.v(meta_owner, 'meta-%s:%s' % (meta, label.split('(')[0]), "%s: %s" % (label, p))
         self.viol.extend(drain())
         return res, exc
